@@ -1,0 +1,21 @@
+//go:build verif
+
+package putsvc
+
+import (
+	"io"
+
+	iec "github.com/nspcc-dev/neofs-node/internal/ec"
+	"github.com/nspcc-dev/neofs-sdk-go/object"
+)
+
+// VerifEncodeECParent runs the real modifyECParentObject (multi-rule EC
+// encoding of one payload buffer) for the model-based verification harness.
+// It returns the encoded parts per rule and the retained payload buffer.
+func VerifEncodeECParent(rules []iec.Rule, hdr *object.Object, payload io.Reader) ([][][]byte, []byte, error) {
+	t := &distributedTarget{ecRules: rules}
+	if err := t.modifyECParentObject(hdr, payload); err != nil {
+		return nil, nil, err
+	}
+	return t.encodedECParts, t.objectPayload, nil
+}
